@@ -67,6 +67,69 @@ static Chain chainOf(const Built &b, const J &t)
     return ch;
 }
 
+// C04 (resolved imports): a library model for the import of component / units `ref`, attached to the import source.
+// The validator follows resolved imports: the target must be found anywhere in the library's encapsulation hierarchy (components)
+// or among its units, is validated itself, and a chain of imports is followed in turn.
+static ModelPtr libraryFor(const std::string &what, const std::string &kind, const std::string &ref, const std::string &url, std::vector<ModelPtr> &keep)
+{
+    const std::string head = "<?xml version=\"1.0\" encoding=\"UTF-8\"?>\n<model xmlns=\"http://www.cellml.org/cellml/2.0#\" xmlns:xlink=\"http://www.w3.org/1999/xlink\" name=\"library\">\n";
+    std::string body;
+    std::string goodVar = "<variable name=\"p\" units=\"dimensionless\" interface=\"public\"/>";
+    bool chain = kind == "chain" || kind == "chainMissing" || kind == "cycle";
+    if (what == "comp") {
+        if (chain) {
+            body = "<import xlink:href=\"" + std::string(kind == "cycle" ? url : "lib2.cellml") + "\"><component name=\"" + ref + "\" component_ref=\"" + (kind == "cycle" ? ref : "inner") + "\"/></import>";
+        } else if (kind == "missing") {
+            body = "<component name=\"somethingElse\">" + goodVar + "</component>";
+        } else {
+            body = "<component name=\"" + ref + "\">" + goodVar + "</component>";
+            if (kind == "nested" || kind == "nestedInvalidInside") {
+                body += "<component name=\"holder\"/><encapsulation><component_ref component=\"holder\"><component_ref component=\"" + ref + "\"/></component_ref></encapsulation>";
+            } else if (kind == "deep") {
+                body += "<component name=\"holder\"/><component name=\"mid\"/><encapsulation><component_ref component=\"holder\"><component_ref component=\"mid\"><component_ref component=\"" + ref
+                        + "\"/></component_ref></component_ref></encapsulation>";
+            }
+        }
+    } else {
+        if (chain) {
+            body = "<import xlink:href=\"" + std::string(kind == "cycle" ? url : "lib2.cellml") + "\"><units name=\"" + ref + "\" units_ref=\"" + (kind == "cycle" ? ref : "inner") + "\"/></import>";
+        } else if (kind == "missing") {
+            body = "<units name=\"somethingElse\"><unit units=\"second\"/></units>";
+        } else if (kind == "invalidInside") {
+            body = "<units name=\"" + ref + "\"><unit units=\"nowhere\"/></units>";
+        } else if (kind == "viaLocal") { // the target is defined over another units of the library
+            body = "<units name=\"base\"><unit units=\"second\"/></units><units name=\"" + ref + "\"><unit prefix=\"milli\" units=\"base\"/></units>";
+        } else {
+            body = "<units name=\"" + ref + "\"><unit units=\"second\"/></units>";
+        }
+    }
+    auto parser = Parser::create();
+    auto lib = parser->parseModel(head + body + "\n</model>\n");
+    if (!lib || parser->errorCount() != 0) {
+        return nullptr;
+    }
+    if (kind == "invalidInside" || kind == "nestedInvalidInside") {
+        if (what == "comp") {
+            lib->component(ref, true)->variable(0)->removeUnits(); // (the parser would not read a variable without units)
+        }
+    }
+    keep.push_back(lib);
+    if (chain) {
+        ImportSourcePtr is = what == "comp" ? lib->component(ref)->importSource() : lib->units(ref)->importSource();
+        if (kind == "cycle") {
+            is->setModel(lib);
+        } else {
+            std::vector<ModelPtr> dummy;
+            auto lib2 = libraryFor(what, kind == "chain" ? (what == "comp" ? "nested" : "top") : "missing", "inner", "lib2.cellml", keep);
+            if (!lib2) {
+                return nullptr;
+            }
+            is->setModel(lib2);
+        }
+    }
+    return lib;
+}
+
 // apply one mutation to a built model; returns false if it could not be applied
 bool mutate(Built &b, const J &mut)
 {
@@ -129,6 +192,43 @@ bool mutate(Built &b, const J &mut)
     }
     if (!e) {
         return false;
+    }
+    if (op == "attachLib") {
+        if (!imp) {
+            return false;
+        }
+        static std::vector<ModelPtr> keep; // the import source does not own the model of a chain's second level
+        keep.clear();
+        std::string ref = k == "importU" ? units->importReference() : comp->importReference();
+        auto lib = libraryFor(k == "importU" ? "units" : "comp", val, ref, imp->url(), keep);
+        if (!lib) {
+            return false;
+        }
+        // whatever else the model imports from the same source is there and valid
+        for (size_t i = 0; i < b.unitsAt.size(); ++i) {
+            auto u = b.unitsAt[i];
+            if (u != units && u->isImport() && u->importSource() == imp && !lib->hasUnits(u->importReference())) {
+                auto nu = Units::create(u->importReference());
+                nu->addUnit("second");
+                lib->addUnits(nu);
+            }
+        }
+        for (auto &c : b.compAt) {
+            if (c != comp && c->isImport() && c->importSource() == imp && !lib->containsComponent(c->importReference(), true)) {
+                auto nc = Component::create(c->importReference());
+                auto nv = Variable::create("p");
+                nv->setUnits("dimensionless");
+                nv->setInterfaceType("public");
+                nc->addVariable(nv);
+                lib->addComponent(nc);
+            }
+        }
+        imp->setModel(lib);
+        b.libs.push_back(lib);
+        for (auto &m : keep) {
+            b.libs.push_back(m);
+        }
+        return true;
     }
     if (op == "set") {
         if (attr == "id") {
